@@ -3,7 +3,8 @@ from ..core import Script, Rng
 from ..stage import LineStage, replay_line
 from .common import *
 
-ARTEFACTS = ["G1-consts", "G2-rs-portable", "G3-arith"]
+ARTEFACTS = ["G1-consts", "G2-rs-portable", "G3-arith", "G8-chunkstate", "G9-update"]
+EXTRA_PROPS = [("B3.Props.C02T", "B3/Props/C02T.lean"), ("B3.Props.C01T", "B3/Props/C01T.lean")]   # theorems about the code translated from the sources
 RULE = ("(a) random decomposition trees (split at left_subtree_len, random depth, each leaf fed by random update splits through "
         "set_input_offset + finalize_non_root) merged with merge_subtrees_non_root / root / root_xof, base offsets t0*1024 with t0 in "
         "{0,1,2^k,2^32-1,2^32,2^32+5*2^j,2^53,2^54-2^j} (input sized to the permitted subtree); fixed 2^g-chunk groups merged layer by "
@@ -155,6 +156,26 @@ def misuse_scripts(rng):
     return out
 
 
+def reoffset_scripts(rng, n):
+    """set_input_offset called more than once before any input (legal: count() == 0 is the only precondition), then a subtree;
+    and offset - reset - offset sequences: the subtree's CV must depend on the LAST offset only"""
+    out = []
+    offs = [0, 1024, 2048, 4096, 1 << 20, 1 << 32, 1 << 42, ((1 << 54) - 4) * 1024]
+    for i in range(n):
+        seq = [rng.choice(offs) for _ in range(rng.randrange(2, 5))]
+        last = seq[-1]
+        mx = (last // 1024 & -(last // 1024)) * 1024 if last else 8192
+        ln = rng.choice([1, 1024, min(mx, 2048), min(mx, 4096), min(mx, 5000) if last == 0 else min(mx, 4096)])
+        ops = [f"P plat {PLATFORMS[i % 5]}", f"H new h {mode_tok(rng)}"]
+        for j, o in enumerate(seq):
+            ops.append(f"H off h {o}")
+            if j < len(seq) - 1 and rng.random() < 0.3:
+                ops += ["H cnt h", "H reset h"]
+        ops += [f"H upd h {pat(ln, rng)}", "H cnt h", "H cvnr h"]
+        out.append(Script(ops, tags=("reoffset",)))
+    return out
+
+
 def stages(tier, seed, witness_search=False):
     rng = Rng(seed)
     n = 250 if tier == "quick" else 4000
@@ -164,6 +185,7 @@ def stages(tier, seed, witness_search=False):
     scripts = helper_scripts(rng, 100 if tier == "quick" else 3000) + misuse_scripts(rng)
     scripts += [decomp_script(rng, PLATFORMS[i % 5], big) for i in range(n)]
     scripts += [grouped_script(rng, PLATFORMS[i % 5]) for i in range(n // 4)]
+    scripts += reoffset_scripts(rng, n // 3)
     return [LineStage("hazmat", scripts)]
 
 
